@@ -54,6 +54,42 @@ def gen_interval(rng, size, hints=True):
     return iv
 
 
+def widening_pair(rng, size):
+    """Two intervals as they meet at a loop head: b extends a by a few strides, small delay, hints close to the bounds
+    (not necessarily on the stride), so that the merge actually widens."""
+    bits = size * 8
+    lo, hi = -(1 << (bits - 1)), (1 << (bits - 1)) - 1
+    stride = rng.choice([1, 1, 2, 3, 4, 5, 8])
+    start = rng.choice([0, 0, 1, -4, -100, 10, lo + 64])
+    n = rng.choice([0, 1, 2, 5])
+    a_end = start + n * stride
+    shape = rng.choice(["next_value", "shifted_up", "shifted_down", "extended", "previous_value"])
+    k = rng.choice([1, 1, 2, 3])
+    if shape == "next_value":
+        b_start = b_end = a_end + k * stride
+    elif shape == "previous_value":
+        b_start = b_end = start - k * stride
+    elif shape == "shifted_up":
+        b_start, b_end = start + k * stride, a_end + k * stride
+    elif shape == "shifted_down":
+        b_start, b_end = start - k * stride, a_end - k * stride
+    else:
+        b_start, b_end = start - rng.choice([0, 1]) * stride, a_end + k * stride
+
+    def mk(s, e):
+        st = 0 if s == e else stride
+        return {"size": size, "start": "%x" % (s & M(bits)), "end": "%x" % (e & M(bits)), "stride": st, "lower": None, "upper": None, "delay": rng.choice([0, 0, 1, 2, 10])}
+    a, b = mk(start, a_end), mk(b_start, b_end)
+    for iv, s, e in ((a, start, a_end), (b, b_start, b_end)):
+        if rng.random() < 0.6:
+            iv["upper"] = "%x" % (min(hi, e + rng.choice([1, 2, 3, 6, 10, 100])) & M(bits))
+        if rng.random() < 0.5:
+            iv["lower"] = "%x" % (max(lo, s - rng.choice([1, 2, 3, 6, 10, 100])) & M(bits))
+    if rng.random() < 0.5:
+        a, b = b, a
+    return a, b
+
+
 def gen_data(rng, size, ids=("id_a", "id_b", "id_c")):
     d = {"size": size, "abs": None, "rel": {}, "top": rng.random() < 0.15}
     if rng.random() < 0.6:
@@ -289,6 +325,8 @@ class RV:
             if r < 0.4:
                 a = gen_interval(rng, size)
                 b = gen_interval(rng, size) if rng.random() < 0.8 else dict(a)
+                if rng.random() < 0.45:
+                    a, b = widening_pair(rng, size)
                 cases.append({"op": "iv_merge", "a": a, "b": b})
             elif r < 0.7:
                 cases.append({"op": "dd_merge", "a": gen_data(rng, size), "b": gen_data(rng, size)})
